@@ -826,6 +826,18 @@ func checkEncryptedObject(c *hl.Ctx, cs caseT, ser string, payload []byte, priv,
 		viol(c, "jwe/wrong-key/"+a.family+"/other-kind", fmt.Sprintf("%s: Decrypt succeeds with a key of another kind (%T). Object: %s", desc, other, short(ser)), vc)
 		ok = false
 	}
+	// the parsed object is not consumed by decrypting: after the attempts above (right key, wrong key, other kind) the
+	// right key still opens it to the same plaintext and it still serialises to the same text
+	if again, err := parsed.Decrypt(priv); err != nil || !bytes.Equal(again, payload) {
+		viol(c, "jwe/decrypt-not-repeatable/"+a.family, fmt.Sprintf("%s: after earlier Decrypt calls on the same parsed object, Decrypt with the right key returns err=%v plaintext=%s. Object: %s", desc, err, hl.Hex(again), short(ser)), vc)
+		ok = false
+	}
+	if cs.Ser == "compact" {
+		if s2, err := parsed.CompactSerialize(); err != nil || s2 != ser {
+			viol(c, "jwe/object-changed-by-decrypt/"+a.family, fmt.Sprintf("%s: after Decrypt the parsed object serialises differently (err=%v): %s vs %s", desc, err, short(s2), short(ser)), vc)
+			ok = false
+		}
+	}
 	if !refCheck {
 		return true, ok
 	}
